@@ -1,4 +1,6 @@
 import Got.Lemmas.Delayed
+import Got.Lemmas.HeapAstAll
+import Got.Lemmas.DelayedHeapEq
 /-
 C10 — taskx.SendDelayed: never early, less than one tick late, in deadline order, exactly once.
 
@@ -148,3 +150,57 @@ def C10_demo5 : List Act :=
    .tickTest, .forward, .tickTest, .delay 1000000000]
 
 example : (run (fun _ => 1) C10_demo5).blockedEver = true := by decide +kernel
+
+/-! ## the translated source of container/heap under the delayed queue
+
+std.PriorityQueue.Push / Pop are `heap.Push(my.s, x)` / `heap.Pop(my.s)` of Go's container/heap.  Its source
+(`$GOROOT/src/container/heap/heap.go` of the toolchain that builds the harness) is re-translated on every run into
+`Got/Generated/AstContainerHeap.lean` (tools/srcfacts/minigo_heap.go; embedding and interpreter Got/Model/MiniGoHeap.lean);
+`pushAst` / `popAst` run the generated terms over the slice-backed heap.Interface (`Got.Model.HeapAst.heapWorld`: Len = size,
+Less(i, j) = `lt a[i] a[j]`, Swap, Push = append, Pop = remove last — what std's `sorter` implements).  The theorems say
+that these interpretations are exactly the model's own heap transcription `DelayedHeap.push` / `DelayedHeap.pop`, so
+`C10_heap_lemma` and everything built on it hold for the library source as translated.  (The same generated terms are
+compared with the running library on every case of the C20 correspondence, `drv_sample ast`.) -/
+section TranslatedSource
+open Got.Model.HeapAst Got.Generated.AstContainerHeap
+
+/-- the translator accepted all functions of container/heap -/
+theorem C10_translation_in_fragment : notes = ["ok", "ok", "ok", "ok", "ok", "ok", "ok"] := by decide
+
+/-- **Translator tie, heap.Push**: the translated library source computes the model's `DelayedHeap.push` -/
+theorem C10_translated_source_heap_Push_refines_model {α : Type} (lt : α → α → Bool) (a : Array α) (x : α)
+    (hsz : a.size + 1 < 2 ^ 62) :
+    ∃ f0, ∀ fuel, f0 ≤ fuel → pushAst fuel lt a x = some (some (push lt a x)) := by
+  rw [Got.Lemmas.DelayedHeapEq.push_eq]
+  exact Got.Lemmas.HeapAst.pushAst_refines lt a x hsz
+
+/-- **Translator tie, heap.Pop**: on a non-empty heap the translated library source returns some element and leaves
+    the model's `DelayedHeap.pop` (on the empty heap it panics: `popAst = some none`) -/
+theorem C10_translated_source_heap_Pop_refines_model {α : Type} (lt : α → α → Bool) (a : Array α)
+    (hsz : a.size < 2 ^ 62) :
+    (0 < a.size → ∃ x, ∃ f0, ∀ fuel, f0 ≤ fuel → popAst fuel lt a = some (some (x, pop lt a))) ∧
+    (a.size = 0 → ∃ f0, ∀ fuel, f0 ≤ fuel → popAst fuel lt a = some none) := by
+  obtain ⟨f0, h⟩ := Got.Lemmas.HeapAst.popAst_refines lt a hsz
+  constructor
+  · intro hne
+    obtain ⟨x, hx⟩ := Got.Lemmas.DelayedHeapEq.pop_eq_goheap_ex lt a hne
+    exact ⟨x, f0, fun fuel hf => by rw [h fuel hf, hx]⟩
+  · intro h0
+    exact ⟨f0, fun fuel hf => by rw [h fuel hf, Got.Lemmas.GoHeap.pop_none lt a h0]⟩
+
+/-- the heap lemma for the queue of requests, stated of the translated library source: pushing a request with the
+    interpreted heap.Push and popping with the interpreted heap.Pop keep the heap invariant; Pop removes exactly one element -/
+theorem C10_translated_source_heap_lemma (h : Array Req) (hh : HeapN rkey h h.size) (hsz : h.size + 1 < 2 ^ 62) :
+    (∀ r, ∃ f0, ∀ fuel, f0 ≤ fuel → ∃ h', pushAst fuel less h r = some (some h') ∧ HeapN rkey h' h'.size ∧
+        h'.toList.Perm (h.toList ++ [r])) ∧
+    (0 < h.size → ∃ f0, ∀ fuel, f0 ≤ fuel → ∃ x h', popAst fuel less h = some (some (x, h')) ∧ HeapN rkey h' h'.size) := by
+  obtain ⟨l1, l2, _⟩ := C10_heap_lemma h hh
+  constructor
+  · intro r
+    obtain ⟨f0, hf0⟩ := C10_translated_source_heap_Push_refines_model less h r hsz
+    exact ⟨f0, fun fuel hf => ⟨_, hf0 fuel hf, (l1 r).1, (l1 r).2⟩⟩
+  · intro hne
+    obtain ⟨x, f0, hf0⟩ := (C10_translated_source_heap_Pop_refines_model less h (by omega)).1 hne
+    exact ⟨f0, fun fuel hf => ⟨x, _, hf0 fuel hf, l2⟩⟩
+
+end TranslatedSource
